@@ -31,6 +31,20 @@ func genPrecGrammar(r *rng) *gSpec {
 		e.prods = append(e.prods, gProd{terms: []gTerm{{kind: 0, name: g.tokens[0]}, {kind: 1, name: "ex"}}, qual: fmt.Sprintf("@right(%d)", 1+r.intn(4))})
 	}
 	e.prods = append(e.prods, gProd{terms: []gTerm{{kind: 0, name: g.tokens[len(g.tokens)-1]}}})
+	// shift actions that belong to several productions: a second production (of the same
+	// rule with another level, or of another rule) that starts like a binary operator production
+	switch r.intn(4) {
+	case 0:
+		e.prods = append(e.prods, gProd{terms: []gTerm{{kind: 1, name: "ex"}, {kind: 0, name: g.tokens[0]}, {kind: 0, name: g.tokens[0]}, {kind: 1, name: "ex"}},
+			qual: fmt.Sprintf("@left(%d)", 1+r.intn(3))})
+	case 1:
+		e.prods = append(e.prods, gProd{terms: []gTerm{{kind: 1, name: "ey"}}})
+		q := ""
+		if r.chance(2, 3) {
+			q = fmt.Sprintf("@left(%d)", 1+r.intn(3))
+		}
+		g.rules = append(g.rules, gRule{name: "ey", prods: []gProd{{terms: []gTerm{{kind: 1, name: "ex"}, {kind: 0, name: g.tokens[0]}, {kind: 0, name: g.tokens[0]}}, qual: q}}})
+	}
 	g.rules = append(g.rules, e)
 	// make it reachable from the start rule sometimes
 	if r.chance(2, 3) {
